@@ -34,6 +34,7 @@ func (vc *VC) backEdge(from, h *ssa.BasicBlock, cond string, st *State) {
 	for phi := range saved {
 		newv[phi] = vc.val(phi.Edges[idx])
 	}
+	vc.loopSteps(li, from, h, newv, cond, st)
 	for phi, v := range newv {
 		vc.vals[phi] = v
 	}
@@ -46,7 +47,13 @@ func (vc *VC) backEdge(from, h *ssa.BasicBlock, cond string, st *State) {
 		vc.oblige("inv.step", fmt.Sprintf("inv.%d.%s.step%s", li.index, inv.Label, suffix), inv.Props, cond, vc.evalBool(env, inv.Expr), inv.Text, token.NoPos)
 	}
 	vc.autoFrameInv(li, "step"+suffix, cond, st)
+	if vc.dry == 0 {
+		vc.iterEnsures(from, h, cond, st, suffix)
+	}
 	for i, d := range vc.loopDecs(li.index) {
+		if i >= len(vc.decAt[h]) { // dry run of the loop body: the variant is not recorded yet
+			continue
+		}
 		nv := vc.evalInt(env, d.Expr)
 		old := vc.decAt[h][i]
 		vc.oblige("dec", fmt.Sprintf("dec.%d%s", li.index, suffix), d.Props, cond, sAnd(app("<=", "0", old), app("<", nv, old)), d.Text, token.NoPos)
@@ -82,6 +89,7 @@ func (vc *VC) exec(b *ssa.BasicBlock, in ssa.Instruction, st *State, reach strin
 	case *ssa.Alloc:
 		vc.alloc(x, st)
 	case *ssa.Store:
+		vc.storeHook(x, st, reach)
 		vc.store(vc.val(x.Addr), vc.val(x.Val), st, reach, x.Pos())
 	case *ssa.FieldAddr:
 		vc.vals[x] = vc.fieldAddr(x, st, reach)
@@ -114,6 +122,8 @@ func (vc *VC) exec(b *ssa.BasicBlock, in ssa.Instruction, st *State, reach strin
 	case *ssa.MakeClosure:
 		f := vc.fresh("closure."+x.Fn.Name(), "Fn")
 		vc.vals[x] = Sc{"Fn", f}
+		vc.assume("true", sNot(sEq(f, "nilFn"))) // a closure value is never nil
+		vc.makeClosureHook(x, st, reach)          // effects.go
 	case *ssa.MakeMap:
 		vc.vals[x] = vc.makeMap(x, st)
 	case *ssa.MapUpdate:
@@ -137,6 +147,7 @@ func (vc *VC) exec(b *ssa.BasicBlock, in ssa.Instruction, st *State, reach strin
 	case *ssa.MakeChan:
 		r := vc.bumpAlloc(st)
 		vc.vals[x] = Sc{"Int", r}
+		vc.makeChanHook(x, r, reach) // effects.go
 	default:
 		panic(unsupported(fmt.Sprintf("instruction %T", in)))
 	}
@@ -336,8 +347,8 @@ func (vc *VC) convert(x *ssa.Convert, st *State, reach string) SV {
 		case fb.Info()&types.IsString != 0 && tb.Info()&types.IsString != 0:
 			return v
 		case fb.Info()&types.IsInteger != 0 && tb.Info()&types.IsString != 0:
-			vc.declareFun("rune2str", []string{"Int"}, "Str")
-			return Sc{"Str", app("rune2str", v.(Sc).T)}
+			vc.declareFun("cp2str", []string{"Int"}, "Str")
+			return Sc{"Str", app("cp2str", v.(Sc).T)}
 		}
 	}
 	// string <-> []byte / []rune
@@ -458,6 +469,14 @@ func (vc *VC) alloc(x *ssa.Alloc, st *State) {
 }
 
 func constArray(sort, v string) string {
+	switch sort {
+	case "Val":
+		return "zeroRowV" // prelude constant: all-nil row (cvc5 rejects `as const` with an uninterpreted constant)
+	case "Str":
+		return "zeroRowS"
+	case "Fn":
+		return "zeroRowFn"
+	}
 	return fmt.Sprintf("((as const (Array Int %s)) %s)", sort, v)
 }
 
@@ -492,6 +511,7 @@ func (vc *VC) load(pv SV, t types.Type, st *State, reach string, pos token.Pos) 
 				cell = vc.globalInit(g, st)
 				st.locals[p.Local] = cell
 			}
+			vc.guardLoad(p, st, reach, pos)
 			return getPath(cell, p.Path)
 		case "elem":
 			v := getPath(vc.readElem(st, *p.Sl, p.Idx), p.Path)
@@ -501,6 +521,8 @@ func (vc *VC) load(pv SV, t types.Type, st *State, reach string, pos token.Pos) 
 			vc.nilCheck(p, reach, pos)
 			v := vc.readHeapPtr(st, p)
 			vc.assumeType(reach, t, v, st)
+			vc.guardLoad(p, st, reach, pos)
+			vc.loadHook(p, v, st, reach, pos)
 			return v
 		}
 	case Sl:
@@ -598,6 +620,12 @@ func (vc *VC) indexAddr(x *ssa.IndexAddr, st *State, reach string) SV {
 	case Sl:
 		if !(idx == "0" && s.Len != "0" && !strings.Contains(s.Len, " ") && s.Len != "" && isPosNumeral(s.Len)) {
 			vc.safety("index", reach, sAnd(app("<=", "0", idx), app("<", idx, s.Len)), x.Pos())
+		}
+		// w-c04: name compound index terms, so that the element term reads (select row (+ off ix!n)) and
+		// E-matching can bind a quantified index k of a pattern (select row (+ off k)) to it (the solvers
+		// flatten (+ off (+ i 1)) and then nothing matches)
+		if strings.Contains(idx, " ") {
+			idx = vc.define("ix", "Int", idx)
 		}
 		sc := s
 		return Pt{Kind: "elem", Sl: &sc, Idx: idx, Elem: s.Elem}
